@@ -317,8 +317,9 @@ def run(prog: Program, ctx: Ctx) -> None:  # noqa: PLR0912,PLR0915
                    "attribute docstrings are looked up on the next sibling with strict=True and a missing sibling means no docstring")
     it = Interp(prog)
 
-    def astobj(kind: str, **attrs) -> Obj:
-        return Obj(None, {"__isa__": {f"ast.{kind}"}, "lineno": 1, "end_lineno": 9, **attrs}, label=kind)
+    def astobj(kind: str, **attrs) -> ast.AST:
+        # real syntax-tree nodes of the stdlib, used as pure data by the evaluator
+        return getattr(ast, kind)(**{"lineno": 1, "end_lineno": 9, **attrs})
 
     const = astobj("Constant", value="doc", lineno=3, end_lineno=4)
     nonstr = astobj("Constant", value=42, lineno=3, end_lineno=3)
